@@ -131,7 +131,7 @@ func c06DecOf(raw string) sdkmath.LegacyDec {
 // world: the name <-> address tables shared by all replicas of a case
 type c06World struct {
 	keys      *c06Keys
-	cs        *csWorld // coinswap naming (accounts, denominations), bound to replica A
+	cs        *csWorld // coinswap naming (accounts, denominations), bound to the replica that is read
 	cons      sdk.ConsAddress
 	gov       string
 	pairCoin  common.Address // ERC20 contract of the native coin "acoin"
@@ -346,18 +346,13 @@ func (r *c06Replica) block(req *abci.RequestFinalizeBlock) *abci.ResponseFinaliz
 	return res
 }
 
-// readCtx: a throw-away branch of the committed state (used on replica A only, by the generator and the observer)
+// readCtx: a throw-away branch of the COMMITTED multistore (not of the check state, which CheckTx moves);
+// used on the noisy replica only, by the generator and the observer -- replicas A, B and D never see
+// anything but FinalizeBlock and Commit (and the export at the compared heights).
 func (r *c06Replica) readCtx(t time.Time, w *c06World) sdk.Context {
 	hdr := tmproto.Header{Height: r.app.LastBlockHeight(), ChainID: ChainID, Time: t, ProposerAddress: w.cons.Bytes()}
-	var ctx sdk.Context
-	if r.app.LastBlockHeight() == 0 {
-		hdr.Height = 1
-		ctx = r.app.BaseApp.NewContextLegacy(false, hdr)
-	} else {
-		ctx = r.app.BaseApp.NewContextLegacy(true, hdr)
-	}
-	c, _ := ctx.CacheContext()
-	return c
+	ms := r.app.CommitMultiStore().CacheMultiStore()
+	return sdk.NewContext(ms, hdr, false, log.NewNopLogger())
 }
 
 func (r *c06Replica) exportHash() string {
@@ -434,7 +429,7 @@ func c06SelfRegisteringInit(ts common.Address) []byte {
 	return b
 }
 
-// ---------------------------------------------------------------- observation of the projection (replica A)
+// ---------------------------------------------------------------- observation of the projection (on replica C)
 
 type c06Obs struct {
 	epochs  []epochstypes.EpochInfo
@@ -640,16 +635,28 @@ func c06Reads(r *c06Replica, w *c06World, rng *rand.Rand, nextTxs [][]byte, req 
 	a := r.app
 	count := func(k string) { stats.Count("read:" + k); r.reads++ }
 	qs := c06Queries(w, a)
+	// every second boundary: every query of the list once, in random order; otherwise a small sample.
+	// Four in ten are asked at a historical height (up to five blocks back).
+	order := rng.Perm(len(qs))
 	n := 3 + rng.Intn(8)
+	if rng.Intn(2) == 0 {
+		n = len(qs)
+	}
 	for i := 0; i < n; i++ {
-		q := qs[rng.Intn(len(qs))]
+		q := qs[order[i%len(qs)]]
 		rq := &abci.RequestQuery{Path: q.path, Data: q.data}
-		if rng.Intn(6) == 0 && a.LastBlockHeight() > 2 {
-			rq.Height = a.LastBlockHeight() - 1 - int64(rng.Intn(2)) // a historical version
+		if h := a.LastBlockHeight(); rng.Intn(10) < 4 && h > 2 {
+			back := int64(1 + rng.Intn(5))
+			if back > h-1 {
+				back = h - 1
+			}
+			rq.Height = h - back
 		}
 		res, err := a.Query(context.Background(), rq)
 		if err != nil || res.Code != 0 {
 			count("query-error")
+		} else if rq.Height != 0 {
+			count("query-historical")
 		} else {
 			count("query")
 		}
